@@ -206,3 +206,52 @@ Section Affine.
     apply (flow_is_trajectory (Phi x) h1 (Phi_ode x) h2 H2 i Hi).
   Qed.
 End Affine.
+
+(* ---- companion systems: a function that satisfies f^(n) = sum_k a_k f^(k) with constant a_k is
+        reproduced exactly, together with its derivatives, by ANY flow of the companion system ---- *)
+Section Companion.
+  Variable n : nat.
+  Variable a : nat -> R.                       (* constant coefficients *)
+  Definition companion (i j : nat) : R :=
+    if Nat.eqb (S i) n then a j else (if Nat.eqb j (S i) then 1 else 0).
+
+  Variable F : R -> nat -> R.                  (* F t k = k-th derivative of f at t *)
+  Hypothesis F_chain : forall t k, (S k < n)%nat -> is_derive (fun s => F s k) t (F t (S k)).
+  Hypothesis F_top : forall t k, S k = n -> is_derive (fun s => F s k) t (rsum n (fun j => a j * F t j)).
+
+  Lemma rsum_single m (g : nat -> R) k : (k < m)%nat -> (forall j, (j < m)%nat -> j <> k -> g j = 0) -> rsum m g = g k.
+  Proof.
+    induction m as [|m IH]; intros Hk Hz; [lia|]. cbn [rsum]. destruct (Nat.eq_dec k m) as [->|ne].
+    - rewrite (rsum_ext m g (fun _ => 0)); [rewrite rsum_const; lra|]. intros j Hj. apply Hz; lia.
+    - rewrite IH; [rewrite (Hz m); [lra|lia|lia]|lia|]. intros j Hj Hne. apply Hz; [lia|exact Hne].
+  Qed.
+
+  Lemma F_solves : solves n companion (fun _ => 0) F.
+  Proof.
+    intros t i Hi. unfold companion. destruct (Nat.eqb_spec (S i) n) as [e|ne].
+    - evar_last. apply (F_top t i e). lra.
+    - evar_last; [apply (F_chain t i); lia|].
+      rewrite (rsum_single n (fun j => (if Nat.eqb j (S i) then 1 else 0) * F t j) (S i)).
+      + rewrite Nat.eqb_refl. lra.
+      + lia.
+      + intros j Hj Hne. destruct (Nat.eqb_spec j (S i)); [contradiction|lra].
+  Qed.
+
+  Variable Phi : (nat -> R) -> R -> nat -> R.
+  Hypothesis Phi_0 : forall x i, (i < n)%nat -> Phi x 0 i = x i.
+  Hypothesis Phi_ode : forall x, solves n companion (fun _ => 0) (Phi x).
+
+  (* stepping from (f(0), f'(0), ...) over any sequence of steps totalling T yields f(T) and its derivatives *)
+  Theorem function_reproduced T : 0 <= T -> forall k, (k < n)%nat -> Phi (F 0) T k = F T k.
+  Proof.
+    intros HT k Hk. rewrite (flow_is_trajectory n companion (fun _ => 0) Phi Phi_0 Phi_ode F 0 F_solves T HT k Hk).
+    f_equal. lra.
+  Qed.
+
+  Theorem function_reproduced_two_steps h1 h2 : 0 <= h1 -> 0 <= h2 -> forall k, (k < n)%nat ->
+    Phi (Phi (F 0) h1) h2 k = F (h1 + h2) k.
+  Proof.
+    intros H1 H2 k Hk. rewrite (flow_semigroup n companion (fun _ => 0) Phi Phi_0 Phi_ode (F 0) h1 h2 H1 H2 k Hk).
+    apply function_reproduced; [lra|exact Hk].
+  Qed.
+End Companion.
